@@ -246,7 +246,7 @@ PROPS = {
     ),
     'C03': dict(
         monitor=True,
-        streams=[chain_stream(8000, 300000, _nt_c03), chain_stream(3000, 100000, _nt_c03, name='ifacesub')],
+        streams=[chain_stream(8000, 300000, _nt_c03), chain_stream(3000, 100000, _nt_c03, name='ifacesub'), chain_stream(1500, 50000, _nt_c03, name='bigchain')],
         rule=CHAIN_RULE + 'C03 non-trivial: the chain binds and at least one supplied provider is excluded',
         level_text='Theorems select_sound (whatever the elimination heuristics did, a chain that binds has, under the final marks, an included '
                    'source for every input of every included provider and an included consumer for every must-consume flow; Required providers are '
